@@ -66,13 +66,18 @@ CLAIMED = {
 
 NOT_APPLICABLE = {}
 
+# built but temporarily not claimed (e.g. the model is being migrated after fix: commits changed the code)
+PENDING = {"C01": "built (see DESIGN.md); model being migrated to the tree after the twelve crash fix: commits",
+           "C07": "built; model being migrated to the tree after the crash fix: commits",
+           "C20": "built; model being migrated to the tree after the crash fix: commits"}
+
 ALL = ["C%02d" % i for i in range(1, 21)]
 
 
 def main():
     checks = []
     for pid in ALL:
-        if pid not in CLAIMED:
+        if pid not in CLAIMED or pid in PENDING:
             continue
         tech, text, note, ref = CLAIMED[pid]
         checks.append({
@@ -88,9 +93,9 @@ def main():
         })
     na = []
     for pid in ALL:
-        if pid in CLAIMED:
+        if pid in CLAIMED and pid not in PENDING:
             continue
-        reason = NOT_APPLICABLE.get(pid, "not claimed yet: the Coq model, theorems and tie for this property are not built at this commit (planned, see DESIGN.md §5/§8)")
+        reason = PENDING.get(pid) or NOT_APPLICABLE.get(pid, "not claimed yet: the Coq model, theorems and tie for this property are not built at this commit (planned, see DESIGN.md §5/§8)")
         na.append({"property_id": pid, "reason": reason})
     m = {
         "version": 1,
@@ -104,7 +109,7 @@ def main():
         },
         "engines": [
             {"name": "coq-proof+correspondence", "path": "/verif/coq, /verif/harness, /verif/lib",
-             "serves_properties": sorted(CLAIMED),
+             "serves_properties": sorted(set(CLAIMED) - set(PENDING)),
              "kind_free_text": "Coq 8.16.1 development (models, proofs, property theorems; generated tables re-proved each run) tied to /repo by a Go harness that runs the implementation and the vm_compute-evaluated model on the same cases, plus implementation-level oracles that search for concrete failing inputs"},
         ],
         "checks": checks,
